@@ -36,6 +36,8 @@ AuxInit == [tid |-> "", mem |-> MemInit,
             holdDepth |-> EmptyFn,   \* stepKey -> open holds (>0 only)
             heldBy |-> EmptyFn,      \* child stepKey -> holding creator stepKey
             rpcOpen |-> EmptyFn,     \* task -> number of state-changing commits so far
+            rpcDepth |-> EmptyFn,    \* task -> nesting depth of request handlers
+            decl |-> EmptyFn,        \* stepKey -> declaration of the last accepted define_step
             released |-> {},         \* steps that closed their outermost hold in this lifetime
             lostEdge |-> {},         \* files that lost a consumer edge in this trace
             inTxn |-> FALSE,
@@ -77,7 +79,8 @@ MemOf(e) ==
 
 OnProcStart(e) ==
   /\ aux' = [AuxInit EXCEPT !.tid = e.tid, !.mem = MemOf(e),
-                            !.lostEdge = IF e.tid = aux.tid /\ ~e.fresh THEN aux.lostEdge ELSE {}]
+                            !.lostEdge = IF e.tid = aux.tid /\ ~e.fresh THEN aux.lostEdge ELSE {},
+                            !.decl = IF e.tid = aux.tid /\ ~e.fresh THEN aux.decl ELSE EmptyFn]
   /\ st' = IF e.tid = aux.tid /\ ~e.fresh THEN st ELSE NoState
   /\ bad' = bad
   /\ cnt' = IF e.tid = aux.tid THEN cnt ELSE Bump(cnt, "traces")
@@ -188,15 +191,30 @@ OnPop(e, lineNo) ==
 
 RunningSteps == {p[2] : p \in aux.running}
 
+\* what a step requires is what its plan declared (the last accepted define_step), not what
+\* the database happens to store for it
+DeclUnits(s, r) ==
+  IF s \in DOMAIN aux.decl
+  THEN LET rs == aux.decl[s].res
+           hits == {i \in DOMAIN rs : rs[i][1] = r}
+       IN IF hits = {} THEN 0 ELSE rs[CHOOSE i \in hits : TRUE][2]
+  ELSE IF ~IsNoState(st) /\ s \in Keys(st) THEN ResUnits(st, s, r) ELSE 0
+DeclNames(s) ==
+  IF s \in DOMAIN aux.decl THEN {aux.decl[s].res[i][1] : i \in DOMAIN aux.decl[s].res}
+  ELSE IF ~IsNoState(st) /\ s \in Keys(st) THEN ResNames(st, s) ELSE {}
+RECURSIVE SumDecl(_, _)
+SumDecl(S, r) == IF S = {} THEN 0
+                 ELSE LET x == CHOOSE x \in S : TRUE IN DeclUnits(x, r) + SumDecl(S \ {x}, r)
+
 OnCmdStart(e, lineNo) ==
   LET s == StepKey(e.step)
       others == aux.running
       over == IF Cardinality(others) + 1 > aux.mem.njob THEN {<<"job_limit_exceeded", "">>} ELSE {}
       known == ~IsNoState(st) /\ s \in Keys(st)
-      res == IF ~known THEN {} ELSE
-        {<<"undefined_resource_runs", r>> : r \in {r \in ResNames(st, s) : r \notin DOMAIN aux.mem.avail}}
-        \cup {<<"resource_limit_exceeded", r>> : r \in {r \in ResNames(st, s) : r \in DOMAIN aux.mem.avail /\
-               SumUnits(st, {t \in RunningSteps : t \in Keys(st)} \cup {s}, r) > aux.mem.avail[r]}}
+      res ==
+        {<<"undefined_resource_runs", r>> : r \in {r \in DeclNames(s) : r \notin DOMAIN aux.mem.avail}}
+        \cup {<<"resource_limit_exceeded", r>> : r \in {r \in DeclNames(s) : r \in DOMAIN aux.mem.avail /\
+               SumDecl(RunningSteps \cup {s}, r) > aux.mem.avail[r]}}
       held == IF s \in DOMAIN aux.heldBy THEN {<<"started_while_creator_holds", "">>} ELSE {}
       avail == IF ~known THEN {} ELSE
         {<<"started_with_unavailable_input", f>> : f \in {f \in Sources(st, s) :
@@ -216,28 +234,58 @@ MutatingRpc == {"declare_static", "register_glob", "define_step", "amend_step",
                 "hold_dispatch", "release_dispatch"}
 
 OnRpcBegin(e) ==
-  /\ aux' = IF e.name \in MutatingRpc THEN [aux EXCEPT !.rpcOpen = Put(@, e.task, 0)] ELSE aux
+  /\ aux' = IF e.name \in MutatingRpc
+            THEN [aux EXCEPT
+                    !.rpcOpen = IF e.task \in DOMAIN @ THEN @ ELSE Put(@, e.task, 0),
+                    !.rpcDepth = Put(@, e.task, (IF e.task \in DOMAIN @ THEN @[e.task] ELSE 0) + 1)]
+            ELSE aux
   /\ UNCHANGED <<st, bad, cnt>>
 
 DefinedLabel(args) ==
   IF args[6] = "." THEN args[1] ELSE args[1] \o "  # wd=" \o args[6]
+
+DefineEffect(db, d, creator) ==
+  LET s == StepKey(d.label) IN
+  IF s \notin Keys(db) THEN {<<"defined_step_missing", s>>} ELSE
+    (IF db.nodes[s].creator # creator THEN {<<"defined_step_wrong_creator", s>>} ELSE {})
+    \cup (IF db.nodes[s].need # d.need THEN {<<"defined_step_wrong_need", s>>} ELSE {})
+    \cup (IF {<<db.nodes[s].resources[i][1], db.nodes[s].resources[i][2]>> : i \in DOMAIN db.nodes[s].resources}
+              # {<<d.res[i][1], d.res[i][2]>> : i \in DOMAIN d.res}
+          THEN {<<"defined_step_wrong_resources", s>>} ELSE {})
+    \cup (IF {x[1] : x \in {y \in DepT(db) : y[2] = s /\ ~y[3]}} # {"file:" \o d.inp[i] : i \in DOMAIN d.inp}
+          THEN {<<"defined_step_wrong_inputs", s>>} ELSE {})
+    \cup (IF {x[2] : x \in {y \in DepT(db) : y[1] = s /\ ~y[3] /\ ~db.nodes[y[2]].detached}}
+              # {"file:" \o d.out[i] : i \in DOMAIN d.out} \cup {"file:" \o d.vol[i] : i \in DOMAIN d.vol}
+          THEN {<<"defined_step_wrong_outputs", s>>} ELSE {})
+    \cup (IF {db.nodes[s].envVars[i][1] : i \in {j \in DOMAIN db.nodes[s].envVars : ~db.nodes[s].envVars[j][3]}}
+              # {d.env[i] : i \in DOMAIN d.env}
+          THEN {<<"defined_step_wrong_env", s>>} ELSE {})
 
 OnRpcEnd(e, lineNo) ==
   IF e.name \notin MutatingRpc THEN UNCHANGED <<st, aux, bad, cnt>> ELSE
   LET nchg == IF e.task \in DOMAIN aux.rpcOpen THEN aux.rpcOpen[e.task] ELSE 0
       c == StepKey(e.step)
       depth == IF c \in DOMAIN aux.holdDepth THEN aux.holdDepth[c] ELSE 0
-      atom == IF e.outcome # "ok" /\ nchg > 0 THEN {<<"rejected_request_changed_state", "">>}
+      nested == e.task \in DOMAIN aux.rpcDepth /\ aux.rpcDepth[e.task] > 1
+      atom == IF nested THEN {}
+              ELSE IF e.outcome # "ok" /\ nchg > 0 THEN {<<"rejected_request_changed_state", "">>}
               ELSE IF e.outcome = "ok" /\ nchg > 1 THEN {<<"request_split_over_commits", "">>} ELSE {}
       internal == IF e.outcome # "ok" /\ ~e.usage THEN {<<"internal_error_on_request", "">>} ELSE {}
-  IN /\ bad' = bad \o Mk(e, lineNo, "C15", atom) \o Mk(e, lineNo, "C09", internal)
+      \* an accepted define_step takes full effect: the stored step is what was declared
+      effect == IF e.outcome = "ok" /\ e.name = "define_step" /\ ~IsNoState(st)
+                THEN DefineEffect(st, e.decl, c) ELSE {}
+  IN /\ bad' = bad \o Mk(e, lineNo, "C15", atom \cup effect) \o Mk(e, lineNo, "C09", internal)
      /\ aux' = [aux EXCEPT
-           !.rpcOpen = Drop(@, e.task),
+           \* a handler that calls another handler is still one request of one client
+           !.rpcOpen = IF nested THEN @ ELSE Drop(@, e.task),
+           !.rpcDepth = IF nested THEN Put(@, e.task, @[e.task] - 1) ELSE Drop(@, e.task),
            !.holdDepth = IF e.outcome # "ok" THEN @
                          ELSE IF e.name = "hold_dispatch" THEN Put(@, c, depth + 1)
                          ELSE IF e.name = "release_dispatch" THEN
                                (IF depth <= 1 THEN Drop(@, c) ELSE Put(@, c, depth - 1))
                          ELSE @,
+           !.decl = IF e.outcome = "ok" /\ e.name = "define_step"
+                    THEN Put(@, StepKey(e.decl.label), e.decl) ELSE @,
            !.released = IF e.outcome = "ok" /\ e.name = "release_dispatch" /\ depth <= 1
                         THEN @ \cup {c} ELSE @,
            !.heldBy = IF e.outcome # "ok" THEN @
